@@ -66,6 +66,9 @@ CHUNK = 40
 # ------------------------------------------------------------------------------------------------
 # simulation of many input pairs in one run
 # ------------------------------------------------------------------------------------------------
+FILTERS = []
+
+
 def simulate(make, pairs, dl, dr, root=nengo.Network):
     """`make()` (called inside the root network, Direct config already set) returns
     (input_left, input_right, output).  Returns (outputs per pair, measured delay)."""
@@ -83,7 +86,12 @@ def simulate(make, pairs, dl, dr, root=nengo.Network):
         nengo.Connection(na, il, synapse=None)
         nengo.Connection(nb, ir, synapse=None)
         pr = nengo.Probe(out, synapse=None)
+    # "a map of its two inputs": with ideal neurons any filter inside the network would make the output depend on
+    # earlier inputs.  The filters found are reported by the caller (FILTERS), then removed for the value comparison.
+    del FILTERS[:]
     for c in model.all_connections:
+        if c.synapse is not None:
+            FILTERS.append(f"{c.pre} -> {c.post} ({c.synapse})"[:120])
         c.synapse = None
     with nengo.Simulator(model, dt=DT, progress_bar=False) as sim:
         sim.run_steps(n)
@@ -261,6 +269,9 @@ def check_config(ctx, builder, alg, d, ul, ur, full, model_budget):
         ctx.fail(dict(base, op="build-and-run"), f"{type(e).__name__}: {str(e)[:200]}",
                  "the binding network of an accepted configuration builds and runs", where=f"net-raises-{alg}")
         return
+    if FILTERS:
+        ctx.fail(dict(base, op="memoryless"), FILTERS[:3], "no filtered connection between the inputs and the output: "
+                 "with ideal neurons the network is a map of its two CURRENT inputs", where=f"net-not-memoryless-{alg}")
     if Y is None:
         ctx.fail(dict(base, op="calibration"), "all-zero output for a positive calibration pair",
                  "non-zero (binding of positive vectors)", where=f"net-dead-{alg}")
@@ -556,6 +567,8 @@ def check_matmult(ctx, D1, D2, D3, max_pairs):
         ctx.fail(base, f"{type(e).__name__}: {str(e)[:200]}", "MatrixMult of compatible shapes builds and runs",
                  where="matmult-raises")
         return
+    if FILTERS:
+        ctx.fail(dict(base, op="memoryless"), FILTERS[:3], "no filtered connection inside the network", where="matmult-not-memoryless")
     if Y is None:
         ctx.fail(base, "all-zero output for positive inputs", "matrix product", where="matmult-dead")
         return
